@@ -493,7 +493,7 @@ def judge(prog, res_out, res_err, rc, v=None):
     # MPI error codes: every generated call is valid, so any error is a refusal to do what the statement describes
     if obs.errors:
         r, line, code, op = obs.errors[0]
-        v.bad("C34:%s:mpi-error:%s:rc=%d" % (_phase_of_line(prog, line), op, code),
+        v.bad("C34:%s:mpi-error:rc=%d" % (_phase_of_line(prog, line), code),
               "rank %d: %s returned error %d (script line %d) in a valid program" % (r, op, code, line))
         return v
     mem = init_memory(prog)
@@ -638,6 +638,8 @@ def judge(prog, res_out, res_err, rc, v=None):
                     labels = sorted({u[0]["label"] for us in byloc[l].values() for u in us})
                     if "cas" in labels:
                         labels = ["cas"]
+                    elif "acc-replace" in labels and "gacc-replace" in labels:
+                        labels = ["acc-replace", "gacc-replace"]
                     v.bad("C34:shared:element-not-serialisable:%s" % "+".join(labels),
                           "phase %d (shared): window %d rank %d element %d (was %r, is %r), %d origins: %s"
                           % (pi, l[0], l[1], l[2], mem[l], final[l], len(byloc[l]), detail))
@@ -653,10 +655,19 @@ def judge(prog, res_out, res_err, rc, v=None):
         v.bad("C34:accumulate:abort:operator-applied-to-contiguous-vector-type",
               "phase %d (%s): %s" % (pi, cur, next(l for l in res_err.splitlines() if "Failed to apply" in l)[-160:]))
         return v
+    if "you're not the owner" in res_err:
+        v.bad("C34:%s:abort:mutex-released-by-non-owner" % (cur if cur != "end" else kinds),
+              "phase %d (%s): %s" % (pi, cur, next(l for l in res_err.splitlines() if "not the owner" in l)[-220:-120]))
+        return v
+    if cur == "end":
+        cur = kinds + ":at-end"
     if obs.crash:
-        m = re.search(r"op=(\S+)", obs.crash[0])
-        opn = m.group(1) if m else "?"
-        v.bad("C34:%s:crash:%s:%s" % (cur if opn != "win_free" else kinds, opn, abort_slug(res_err)),
+        # (the rank/op printed by the signal handler are those of the last loaded copy of the program: not used in the key)
+        m = re.search(r"sig=(\d+)", obs.crash[0])
+        slug = abort_slug(res_err)
+        if slug == "unknown" and m:
+            slug = "signal-" + m.group(1)
+        v.bad("C34:%s:abort:%s" % (cur, slug),
               "%s | %s" % (obs.crash[0], res_err.strip().splitlines()[0][-200:] if res_err.strip() else ""))
         return v
     if len(obs.done) != np_ or rc != 0:
